@@ -22,19 +22,36 @@ class Killed(Exception):
     """the simulated command is SIGKILLed (whole tree) at a kill point inside a script"""
 
 
-def candidates(name: str) -> List[tuple]:
-    """Candidate .do files for a flat target name, highest priority first: (dofile, arg2)."""
-    out = [(name + ".do", name)]
-    parts = name.split(".")
-    # default.<ext>.do from the longest extension to the shortest, then default.do
-    for i in range(1, len(parts)):
-        ext = ".".join(parts[i:])
-        base = ".".join(parts[:i])
-        if base == "":
-            continue  # a leading dot is part of the name, not an extension separator
-        out.append((f"default.{ext}.do", base))
-    out.append(("default.do", name))
+def candidates_full(name: str) -> List[tuple]:
+    """Candidate .do files for a project-relative target name, highest priority first:
+    (do file, directory of the do file, $1, $2) -- all but $1/$2 relative to the project root, $1/$2 relative to the do file's
+    directory.  `<name>.do` beside the target; then in the target's directory and in every directory above it (up to the
+    project root; what lies above the project is never created by the harness) `default.<ext>.do` from the longest extension to the
+    shortest and `default.do`."""
+    import posixpath
+    d, base = posixpath.split(name)
+    out = [(posixpath.join(d, base + ".do"), d, base, base)]
+    parts = base.split(".")
+    dirs = [d]
+    while dirs[-1]:
+        dirs.append(posixpath.dirname(dirs[-1]))
+    for dd in dirs:
+        rel = name[len(dd) + 1:] if dd else name
+        reldir = posixpath.dirname(rel)
+        # default.<ext>.do from the longest extension to the shortest, then default.do
+        for i in range(1, len(parts)):
+            ext = ".".join(parts[i:])
+            b = ".".join(parts[:i])
+            if b == "":
+                continue  # a leading dot is part of the name, not an extension separator
+            out.append((posixpath.join(dd, f"default.{ext}.do"), dd, rel, posixpath.join(reldir, b)))
+        out.append((posixpath.join(dd, "default.do"), dd, rel, rel))
     return out
+
+
+def candidates(name: str) -> List[tuple]:
+    """(dofile, arg2) pairs of candidates_full"""
+    return [(df, a2) for df, _dd, _a1, a2 in candidates_full(name)]
 
 
 class Model:
@@ -121,9 +138,9 @@ class Model:
     # -- rules ---------------------------------------------------------------
     def rule_for(self, name):
         """(dofile, spec) of the first existing candidate, or None."""
-        for df, arg2 in candidates(name):
+        for df, dd, arg1, arg2 in candidates_full(name):
             if df in self.variant and self.variant[df] is not None:
-                return df, self.w.rules[df][self.variant[df]].subst(arg2)
+                return df, self.w.rules[df][self.variant[df]].subst(arg2).rebase(dd, arg1)
         return None
 
     def absent_candidates(self, name):
@@ -208,7 +225,7 @@ class Model:
                 return FAIL
         if spec.proj:
             c = c.replace("1", "0")
-        return "%s(%s)\n" % (name, c)
+        return "%s(%s)\n" % (spec.arg1 or name, c)     # the script prints $1: the name as seen from the rule's directory
 
     def script_deps(self, name, spec: Spec):
         """Ordered groups of (mode, [names]) the current script requests, given current sources.
